@@ -48,6 +48,21 @@ def check_method(ix, rep, cls, f, label, rule='R-CACHE'):
     attr, key, hitnode, stores = m
     tot = E.transitive_effects(ix, cls, f.node.name)
     deps = sorted(a for a in tot.reads if a != attr and ix.resolve_method(cls, a) is None)
+    # an attribute whose value is part of the key is covered by the key
+    keyed = set()
+    try:
+        for x in ast.walk(ast.parse(key, mode='eval')):
+            if isinstance(x, ast.Attribute) and isinstance(x.value, ast.Name) and x.value.id == 'self':
+                keyed.add(x.attr)
+    except SyntaxError:
+        pass
+    for st in ast.walk(f.node):
+        # key bound to a tuple built before the test: k = (node, self.period, ...)
+        if isinstance(st, ast.Assign) and len(st.targets) == 1 and isinstance(st.targets[0], ast.Name) and st.targets[0].id == key:
+            for x in ast.walk(st.value):
+                if isinstance(x, ast.Attribute) and isinstance(x.value, ast.Name) and x.value.id == 'self':
+                    keyed.add(x.attr)
+    deps = [d for d in deps if d not in keyed]
     n = 0
     classes = [cls] + [c for c in ix.subclasses_of(cls)]
     seen = set()
@@ -92,3 +107,72 @@ def time_unit_transformer(self, node):
 def self_test():
     m = memo_of(ast.parse(POSITIVE).body[0])
     return m is not None and m[0] == 'bounds' and m[1] == 'node' and len(m[3]) == 1
+
+
+def _hit_anywhere(fnode):
+    """memo hits of the looser shape `if <k in C> [and ...]: return C[k]` with C any attribute chain rooted at self -> [(container text, If node)]"""
+    out = []
+    for st in ast.walk(fnode):
+        if not (isinstance(st, ast.If) and st.body and isinstance(st.body[-1], ast.Return) and isinstance(st.body[-1].value, ast.Subscript)):
+            continue
+        r = st.body[-1].value
+        cont = ast.unparse(r.value)
+        if not cont.startswith('self.'):
+            continue
+        tests = st.test.values if isinstance(st.test, ast.BoolOp) and isinstance(st.test.op, ast.And) else [st.test]
+        for t in tests:
+            if isinstance(t, ast.Compare) and len(t.ops) == 1 and isinstance(t.ops[0], ast.In) and ast.unparse(t.comparators[0]) == cont \
+                    and ast.unparse(t.left) == ast.unparse(r.slice):
+                out.append((cont, st))
+    return out
+
+
+def check_offline_memo_renewed(ix, rep, mon, rule='R-CACHE'):
+    """an offline evaluation is a function of the data set it is given.  A `visit` wrapper that answers from a table (`if node in T: return
+    T[node]`) is that function only if T is empty when evaluate() starts: the evaluate() this monitor class resolves has to renew T on every
+    path before it walks the specification.  A table that an earlier evaluate() filled -- the published results, a per-interpreter cache that
+    only the sibling interpreter's evaluate() clears -- makes the second evaluation return values of the first trace."""
+    from sa import flow
+    n = 0
+    ev = ix.resolve_method(mon.cls, 'evaluate')
+    if ev is None:
+        return 0
+    for k in ix.mro(mon.cls):
+        if not isinstance(k, ClassInfo):
+            continue
+        for mname, f in sorted(k.methods.items()):
+            if ix.resolve_method(mon.cls, mname) is not f and not mname.startswith('visit'):
+                continue
+            for cont, ifnode in _hit_anywhere(f.node):
+                n += 1
+                rep.analysed(f)
+                rep.analysed(ev)
+                cfg = flow.CFG(ev.node)
+                dom = cfg.dominators()
+
+                def renews(st):
+                    if isinstance(st, ast.Assign) and any(ast.unparse(t) == cont for t in st.targets):
+                        return True
+                    return isinstance(st, ast.Expr) and isinstance(st.value, ast.Call) and isinstance(st.value.func, ast.Attribute) and st.value.func.attr == 'clear' \
+                        and ast.unparse(st.value.func.value) == cont
+                walks = [c for c in ast.walk(ev.node) if isinstance(c, ast.Call) and isinstance(c.func, ast.Attribute) and c.func.attr in ('visitAst', 'visit', 'visitSpec')]
+                ok = bool(walks)
+                for c in walks:
+                    stc = c
+                    parents = {}
+                    for p in ast.walk(ev.node):
+                        for ch in ast.iter_child_nodes(p):
+                            parents[id(ch)] = p
+                    while id(stc) in parents and cfg.node(stc) is None:
+                        stc = parents[id(stc)]
+                    nd = cfg.node(stc)
+                    if nd is None or not any(cfg.stmt[d] is not None and renews(cfg.stmt[d]) for d in dom[nd] if d != nd):
+                        ok = False
+                slot = '%s:memo:%s' % (mon.kind, cont)
+                if ok:
+                    rep.ok(rule, f.module.rel, f.qual, slot, '%s renews %s before it walks the specification' % (ev.qual, cont), ifnode.lineno)
+                else:
+                    rep.fail(rule, f.module.rel, f.qual, slot, '%s() answers from %s when the node is in it, and %s -- the evaluate() of the %s monitor -- does not empty that table before it '
+                             'walks the specification: a second evaluate() on the same specification object returns, for those nodes, the values computed from the first data set'
+                             % (f.node.name, cont, ev.qual, mon.kind), ifnode.lineno)
+    return n
